@@ -2,7 +2,7 @@ CONSTANTS
   Mode = "pairs"
   Depth = 1
   HistLen = 3
-  HistSpace = "rec"
+  HistSpace = "rec3"
 CHECK_DEADLOCK FALSE
 INIT PInit
 NEXT PNext
